@@ -511,6 +511,18 @@ theorem context_sites_classified :
     parserGuardCond = "$parser.depth > MAX_RECURSION" :=
   ⟨rfl, by decide, rfl, rfl⟩
 
+/-- the helpers that fill a context push their frame unconditionally: a macro context is
+    `[base frame, closure frame]` whatever the root context value is (undefined, none, a map, an
+    object) — `enterMacro` starts from one frame and pushes the second — and `clear` drops the
+    inherited depth of a pooled context -/
+theorem context_helpers_unconditional :
+    contextHelpers = [
+      ("reset_with_frame", "self.clear(); self.stack.push(frame);"),
+      ("clear", "self.stack.clear(); self.outer_stack_depth = 0;"),
+      ("new_with_frame", "let mut rv = Context::new(env); rv.stack.push(frame); rv"),
+      ("pop_frame", "self.stack.pop().unwrap()")] :=
+  rfl
+
 /-- the tie to the source text of the re-entry sites: the functions of `vm/mod.rs` that call
     `eval_state`/`do_eval`/`eval_impl`, with the depth-increasing calls that precede the nested
     interpreter and the restoring calls that follow it, are exactly the ones modelled
